@@ -6,6 +6,7 @@ A joint case: {"insts": [A, B], "calls": [["send", "A", tat, hex] | ["proc", "A"
   <side>:<event> ... | inA=<n> inB=<n> A[<status>] B[<status>]
 """
 import json
+import vclock  # noqa: F401,E402  (clock trampolines go in before the library binds anything)
 import isotp
 from core import ImplInst, case_to_model_text, split_line, unhx, _REAL
 import lc
